@@ -860,7 +860,8 @@ Definition do_closed (c : conn) : R :=
        bindr (drain_release (c_pid c) (c_puback c)) (fun '(a, e3) =>
        bindr (drain_release a (c_pubrec c)) (fun '(a, e4) =>
        bindr (drain_release a (c_pubcomp c)) (fun '(a, e5) =>
-       Ok (set_pubcomp (set_pubrec (set_puback (set_pid c a) []) []) [], e3 ++ e4 ++ e5))))
+       (* F-27: no outbound exchange is left to count against the peer's Receive Maximum *)
+       Ok (set_send_count (set_pubcomp (set_pubrec (set_puback (set_pid c a) []) []) []) 0, e3 ++ e4 ++ e5))))
      else Ok (c, [])) (fun '(c, e345) =>
   let '(c, e6) := cancel_timers c in
   Ok (c, e1 ++ e2 ++ e345 ++ e6)))).
